@@ -56,8 +56,187 @@ pub fn plan_for(property: &str) -> Option<(&'static str, Vec<PlanItem>)> {
                 PlanItem { family: "reset_cancel", run: c03_reset_cancel, quick: 6000, thorough: 200000, determinism_check: false },
             ],
         ),
+        "C09" => (
+            "C09",
+            vec![
+                PlanItem { family: "direct_seqnr", run: crate::fam::direct::direct_seqnr, quick: 256, thorough: 1024, determinism_check: false },
+                PlanItem { family: "metamorphic", run: c09_metamorphic, quick: 1500, thorough: 40000, determinism_check: true },
+            ],
+        ),
+        "C16" => (
+            "C16",
+            vec![PlanItem { family: "direct_rtte", run: crate::fam::direct::direct_rtte, quick: 4000, thorough: 40000, determinism_check: false }],
+        ),
+        "C15" => (
+            "C15",
+            vec![PlanItem { family: "direct_cubic", run: crate::fam::direct::direct_cubic, quick: 6000, thorough: 60000, determinism_check: false }],
+        ),
         _ => return None,
     })
+}
+
+/// C09 metamorphic family: the same case twice, identical in everything except the values the
+/// environment's random_u16 hands out (connection id base and initial sequence number of each
+/// side): once small, once placed shortly before 65535. The normalised wire traces and the
+/// application histories (with their virtual timestamps) must be identical.
+fn c09_metamorphic(ctx: &CaseCtx) -> CaseReport {
+    use crate::events::{ApiOp, Ev, MS};
+    let mut rep = CaseReport::new(ctx.family, ctx.index, ctx.case_seed);
+    let mut rng = crate::prng::Prng::new(ctx.case_seed ^ 0x3E7A);
+    let big_window = ctx.index % 5 == 0;
+    let profile = if rng.chance(0.5) { Profile::LossFree } else { Profile::General };
+    let mut g = duplex::generate(ctx.case_seed, profile, if big_window { 1_200_000 } else { 200_000 });
+    g.cfg.coordinated_close = true;
+    for s in 0..2 {
+        g.cfg.w[s].end = crate::app::WriterEnd::Shutdown;
+        g.cfg.r[s].stop = crate::app::ReaderStop::Never;
+    }
+    if big_window {
+        // small segments and large buffers: more than a thousand packets in flight
+        let mtu = rng.usize_range(120, 300);
+        g.cfg.a.link_mtu = Some(mtu);
+        g.cfg.b.link_mtu = Some(mtu);
+        for c in [&mut g.cfg.a, &mut g.cfg.b] {
+            c.rx_buf = None;
+            c.tx_buf_initial = Some(1 << 20);
+            c.tx_buf_max = Some(1 << 20);
+        }
+        let big = rng.below(2) as usize;
+        g.cfg.w[big].total = rng.usize_range(300_000, 1_000_000);
+        g.cfg.w[big].chunk = (65536, 400_000);
+        g.cfg.w[big].pause_prob = 0.0;
+        g.cfg.w[1 - big].total = g.cfg.w[1 - big].total.min(2000).max(1);
+        g.cfg.r[1 - big] = crate::app::ReaderPlan::greedy();
+        let lat = *rng.pick(&[20u64, 50, 100]) * MS;
+        g.plan = crate::sim::FaultPlan::perfect(rng.next_u64()).with_latency(lat, lat);
+    }
+    g.cfg.tail = 2 * crate::events::SEC;
+    let near = |rng: &mut crate::prng::Prng| 65535u16.wrapping_sub(rng.below(if big_window { 6000 } else { 3000 }) as u16);
+    let placements: [[u16; 4]; 2] = [
+        [rng.range(1, 500) as u16 * 2, rng.range(1, 2000) as u16, rng.range(600, 900) as u16 * 2, rng.range(3000, 5000) as u16],
+        match rng.below(3) {
+            0 => [near(&mut rng), near(&mut rng), near(&mut rng), near(&mut rng)],
+            1 => [rng.below(65536) as u16, near(&mut rng), rng.below(65536) as u16, rng.range(1, 60000) as u16],
+            _ => [rng.below(65536) as u16, rng.range(1, 60000) as u16, rng.below(65536) as u16, near(&mut rng)],
+        },
+    ];
+    let mut placements = placements;
+    if big_window {
+        // make sure the bulk sender's numbers cross 65535 in the middle of the transfer
+        let big = if g.cfg.w[0].total > g.cfg.w[1].total { 0 } else { 1 };
+        let pkts = g.cfg.w[big].total / (g.cfg.a.max_payload(!g.cfg.ipv6)).max(1);
+        let back = rng.range(50, (pkts as u64).clamp(100, 8000)) as u16;
+        placements[1][if big == 0 { 1 } else { 3 }] = 65535u16.wrapping_sub(back);
+    }
+    rep.desc = format!("{} plan[{}] placements(cidA,isnA,cidB,isnB)={:?}", g.cfg.describe(), g.plan.describe(), placements);
+    let plan_seed = rng.next_u64();
+    let mut sigs: Vec<(u64, Vec<String>, usize, bool, Option<String>)> = Vec::new();
+    let mut last_events = Vec::new();
+    let mut end_time = 0;
+    for p in placements.iter() {
+        let mut cfg = g.cfg.clone();
+        cfg.a.forced_random = vec![p[0], p[1]];
+        cfg.b.forced_random = vec![p[2], p[3]];
+        // an identical fault plan for both runs
+        let mut plan = duplex::gen_plan(&mut crate::prng::Prng::new(plan_seed), profile, !cfg.ipv6, &cfg.a, &cfg.b);
+        if big_window {
+            plan = crate::sim::FaultPlan::perfect(plan_seed).with_latency(g.plan.latency.0, g.plan.latency.1);
+        }
+        let run = duplex::run_duplex(ctx.case_seed, &cfg, plan);
+        let view = WireView::build(&run.events);
+        let api: Vec<String> = run
+            .events
+            .iter()
+            .filter_map(|e| match &e.ev {
+                Ev::Api { side, op, .. } => match op {
+                    ApiOp::AcceptRet(_) | ApiOp::ConnectRet(_) | ApiOp::WriteRet(_) | ApiOp::ReadRet(_) | ApiOp::FlushRet(_) | ApiOp::ShutdownRet(_) => {
+                        Some(format!("{} s{} {:?}", e.t, side, op))
+                    }
+                    _ => None,
+                },
+                _ => None,
+            })
+            .collect();
+        let max_in_flight = {
+            // largest number of data packets sent and not yet cumulatively acknowledged (either direction)
+            let mut best = 0usize;
+            if !view.conns.is_empty() {
+                for from_init in [true, false] {
+                    let t = crate::view::dir_table(&view, 0, from_init);
+                    let mut hi: i64 = -1;
+                    let mut acked: i64 = -1;
+                    let mut evs: Vec<(usize, bool, i64)> = Vec::new();
+                    for &pi in view.conns[0].dir(from_init) {
+                        if let Some(pk) = &view.pkts[pi].pkt {
+                            if pk.ty == crate::wire::ST_DATA {
+                                evs.push((view.pkts[pi].idx, true, t.idx_of(pk.seq)));
+                            }
+                        }
+                    }
+                    for &pi in view.conns[0].dir(!from_init) {
+                        let p = &view.pkts[pi];
+                        if let (Some(pk), Some((_, ri))) = (&p.pkt, p.recvs.first()) {
+                            if pk.ty != crate::wire::ST_SYN {
+                                evs.push((*ri, false, t.idx_of(pk.ack)));
+                            }
+                        }
+                    }
+                    evs.sort();
+                    for (_, is_send, idx) in evs {
+                        if is_send {
+                            hi = hi.max(idx);
+                        } else {
+                            acked = acked.max(idx);
+                        }
+                        best = best.max((hi - acked).max(0) as usize);
+                    }
+                }
+            }
+            best
+        };
+        rep.counters.max("max_packets_in_flight", max_in_flight as u64);
+        if max_in_flight > 1024 {
+            rep.counters.inc("c09_runs_with_more_than_1024_in_flight");
+        }
+        let crossed = view.conns.first().map(|c| {
+            let wraps = |first: Option<u16>, n: usize| first.map(|f| f as usize + n > 65535).unwrap_or(false);
+            wraps(c.first_data_seq(true), crate::view::dir_table(&view, 0, true).entries.len())
+                || wraps(c.first_data_seq(false), crate::view::dir_table(&view, 0, false).entries.len())
+        }).unwrap_or(false);
+        if crossed {
+            rep.counters.inc("c09_runs_crossing_the_wrap");
+        }
+        sigs.push((view.trace_hash(), api, view.pkts.len(), run.deadline_hit, run.panicked.clone()));
+        end_time = run.end_time;
+        last_events = run.events;
+    }
+    rep.counters.inc("c09_pairs_compared");
+    let (a, b) = (&sigs[0], &sigs[1]);
+    if a.4.is_some() || b.4.is_some() {
+        rep.inconclusive.push(format!("panic during a run: {:?} / {:?}", a.4, b.4));
+    }
+    if a.0 != b.0 || a.1 != b.1 {
+        let first_api = a.1.iter().zip(b.1.iter()).position(|(x, y)| x != y);
+        let detail = match first_api {
+            Some(i) => format!("application histories differ at return #{i}: small ISNs: {:?} / placed ISNs: {:?}", a.1.get(i), b.1.get(i)),
+            None if a.1.len() != b.1.len() => format!("application histories differ in length: {} vs {} returns (first extra: {:?})", a.1.len(), b.1.len(), if a.1.len() > b.1.len() { a.1.get(b.1.len()) } else { b.1.get(a.1.len()) }),
+            None => format!("application histories equal, wire traces differ ({} vs {} datagrams)", a.2, b.2),
+        };
+        rep.violate(
+            "C09",
+            "behaviour-depends-on-isn",
+            format!("metamorphic {}", if big_window { "more-than-1024-packets-in-flight-family" } else { "general-family" }),
+            format!("the run with initial numbers {:?} behaves differently from the run with {:?}: {detail}", placements[1], placements[0]),
+            None,
+        );
+    }
+    rep.trace_hash = b.0;
+    rep.nontrivial = true;
+    rep.end_time = end_time;
+    if ctx.keep_events || !rep.violations.is_empty() {
+        rep.events = last_events;
+    }
+    rep
 }
 
 fn duplex_addrs(cfg: &duplex::DuplexCfg) -> [std::net::SocketAddr; 2] {
